@@ -1367,6 +1367,7 @@ class Parallel(Logger):
         # Internal variables
         self._backend = backend
         self._running = False
+        self._calling = False
         self._managed_backend = False
         self._id = uuid4().hex
         self._call_ref = None
@@ -2022,6 +2023,20 @@ class Parallel(Logger):
         """Main function to dispatch parallel tasks."""
 
         self._reset_run_tracking()
+        try:
+            return self._start_call(iterable)
+        except BaseException:
+            if self._running:
+                # The call failed while it was being set up (invalid
+                # `pre_dispatch`, input that cannot be iterated, backend that
+                # could not be started...), before the output generator, which
+                # otherwise does this clean-up, was running: do not leave the
+                # instance marked as running.
+                self._running = False
+                self._terminate_and_reset()
+            raise
+
+    def _start_call(self, iterable):
         self.n_tasks = len(iterable) if hasattr(iterable, "__len__") else None
         self._start_time = time.time()
 
